@@ -238,6 +238,10 @@ def c18_job(jid, row, demand, predicted, rng):
         ov["p_out"] = [0, n]
     elif row["po"] == "has_far":
         ov["p_out"] = [0, 99]
+    elif row["po"] == "has_n_first":
+        ov["p_out"] = [n, 0]
+    elif row["po"] == "has_far_mid":
+        ov["p_out"] = [1, 7 + n, 0]
     elif row["po"] == "dup":
         po = [1, 1]
     elif row["po"] == "dup_unsorted":
